@@ -37,6 +37,11 @@ mod util;
 mod validate;
 mod value;
 
+#[cfg(feature = "verif-hooks")]
+mod verif;
+#[cfg(feature = "verif-hooks")]
+pub use verif::verif_sanitize;
+
 #[allow(missing_docs)]
 #[derive(Error, Debug)]
 pub enum Error {
